@@ -20,6 +20,10 @@ type PropConfig struct {
 	Level    string   `json:"level"`
 	Notes    []string `json:"not_decided"`
 	Replay   string   `json:"replay_driver"`
+	// ContractAlias: calls resolved to the left key use the contract of the right key (e.g. reads
+	// through state.Immutable of an object that is also written through state.Mutable must use the
+	// map contract, not the pure-function one)
+	ContractAlias map[string]string `json:"contract_alias"`
 }
 
 type KnownFinding struct {
@@ -67,6 +71,7 @@ func cmdCheck(args []string) int {
 	}
 	id := args[0]
 	currentProp = id
+	contractAlias = map[string]string{}
 	fs.Parse(args[1:])
 	if t := os.Getenv("VERIF_TIER"); t != "" {
 		*tier = t
@@ -80,6 +85,9 @@ func cmdCheck(args []string) int {
 	if err != nil {
 		fmt.Printf("UNDECIDED property=%s %v\n", id, err)
 		return 2
+	}
+	for k, v := range cfg.ContractAlias {
+		contractAlias[k] = v
 	}
 	dir := *repo
 	if cfg.Dir != "" {
@@ -151,6 +159,9 @@ func cmdCheck(args []string) int {
 
 // currentProp: the property being checked (clauses tagged @ID are proved only under that property)
 var currentProp string
+
+// contractAlias: per-property redirection of a callee key to another contract (see PropConfig)
+var contractAlias = map[string]string{}
 
 func hasProp(ps []string, id string) bool {
 	for _, p := range ps {
